@@ -1625,6 +1625,79 @@ def gen_mixhelper(repo):
 
 GENERATORS["MixHelperGen"] = gen_mixhelper
 
+
+# ---------------------------------------------------------------------------------------------------------------------------
+# periodic_disk_revolve.py: mxrr_close_formula (with beta of basic_functions.py) -> the shape of Proofs/MxrrGenSpec.v.
+# The float test `A <= B / C` is read as the exact `A * C <= B` (le_div; C = uf > 0); beta's factorial quotient as BinomDef.beta.
+BETA_BODY = "if y < 0:\n    return 0\nreturn math.factorial(x + y) / (math.factorial(x) * math.factorial(y))"
+
+
+def gen_mxrr(repo):
+    bt = ast.parse(open(os.path.join(repo, "checkpoint_schedules", "hrevolve_sequences", "basic_functions.py")).read())
+    bf = [n for n in bt.body if isinstance(n, ast.FunctionDef) and n.name == "beta"]
+    if len(bf) != 1 or ast.unparse(bf[0].args) != "x, y" or bf[0].decorator_list or "\n".join(ast.unparse(x) for x in _strip_doc(bf[0].body)) != BETA_BODY:
+        raise Untranslatable("beta(x, y) is not `0 for y < 0, else (x+y)! / (x! y!)`")
+    if not any(isinstance(n, ast.Import) and any(a.name == "math" and not a.asname for a in n.names) for n in bt.body):
+        raise Untranslatable("basic_functions.py: import math")
+    pt = ast.parse(open(os.path.join(repo, "checkpoint_schedules", "hrevolve_sequences", "periodic_disk_revolve.py")).read())
+    # beta reaches periodic_disk_revolve.py from basic_functions, unshadowed
+    imp = [n for n in pt.body if isinstance(n, ast.ImportFrom) and any((a.asname or a.name) == "beta" for a in n.names)]
+    if len(imp) != 1 or imp[0].module != "basic_functions" or imp[0].level != 1 or any(a.name == "beta" and a.asname for a in imp[0].names):
+        raise Untranslatable("periodic_disk_revolve.py: beta is not `from .basic_functions import ... beta`")
+    for n in ast.walk(pt):
+        if (isinstance(n, (ast.FunctionDef, ast.ClassDef)) and n.name in ("beta", "int")) or \
+                (isinstance(n, ast.Assign) and any(ast.unparse(t) in ("beta", "int") for t in n.targets)) or \
+                (isinstance(n, ast.arg) and n.arg in ("beta", "int")):
+            raise Untranslatable("beta / int is rebound in periodic_disk_revolve.py")
+    fs = [n for n in pt.body if isinstance(n, ast.FunctionDef) and n.name == "mxrr_close_formula"]
+    if len(fs) != 1 or ast.unparse(fs[0].args) != "cm, uf, rd, wd" or fs[0].decorator_list:
+        raise Untranslatable("def mxrr_close_formula(cm, uf, rd, wd)")
+    body = _strip_doc(fs[0].body)
+    env = {"cm", "uf", "rd", "wd"}
+
+    def ex(e, names):
+        if isinstance(e, ast.Constant) and type(e.value) is int:
+            return str(e.value)
+        if isinstance(e, ast.Name) and e.id in names:
+            return e.id
+        if isinstance(e, ast.BinOp) and isinstance(e.op, (ast.Add, ast.Sub, ast.Mult)):
+            return "(%s %s %s)" % (ex(e.left, names), BIN[type(e.op)], ex(e.right, names))
+        if isinstance(e, ast.Call) and isinstance(e.func, ast.Name) and e.func.id == "beta" and len(e.args) == 2 and not e.keywords:
+            return "(betaZ %s %s)" % (ex(e.args[0], names), ex(e.args[1], names))
+        raise Untranslatable("expression " + ast.dump(e)[:80])
+    if len(body) != 3:
+        raise Untranslatable("mxrr_close_formula: three statements")
+    a, w, r = body
+    if not (isinstance(a, ast.Assign) and len(a.targets) == 1 and isinstance(a.targets[0], ast.Name) and a.targets[0].id not in env):
+        raise Untranslatable("mxrr_close_formula: initialisation of the counter")
+    t = a.targets[0].id
+    names = env | {t}
+    if not (isinstance(w, ast.While) and not w.orelse and isinstance(w.test, ast.Compare) and len(w.test.ops) == 1 and isinstance(w.test.ops[0], ast.LtE)
+            and isinstance(w.test.comparators[0], ast.BinOp) and isinstance(w.test.comparators[0].op, ast.Div)):
+        raise Untranslatable("mxrr_close_formula: while A <= B / C")
+    if not (len(w.body) == 1 and isinstance(w.body[0], ast.AugAssign) and isinstance(w.body[0].op, ast.Add) and isinstance(w.body[0].target, ast.Name)
+            and w.body[0].target.id == t):
+        raise Untranslatable("mxrr_close_formula: loop body")
+    q = w.test.comparators[0]
+    if not (isinstance(q.right, ast.Name) and q.right.id == "uf"):
+        raise Untranslatable("mxrr_close_formula: the divisor is not uf (the fuel and the exact reading assume it)")
+    cond = "le_div %s %s %s" % (ex(w.test.left, names), ex(q.left, names), ex(q.right, names))
+    if not (isinstance(r, ast.Return) and isinstance(r.value, ast.Call) and isinstance(r.value.func, ast.Name) and r.value.func.id == "int"
+            and len(r.value.args) == 1 and not r.value.keywords):
+        raise Untranslatable("mxrr_close_formula: return int(..)")
+    return "\n".join(["(* GENERATED by harness/translate.py from hrevolve_sequences/periodic_disk_revolve.py (mxrr_close_formula) and basic_functions.py (beta) -- do not edit *)",
+                      "From Coq Require Import ZArith List Bool.", "From CS Require Import Actions BinomDef RevSeq MxrrGenSpec.", "Open Scope Z_scope.", "",
+                      "Definition mxrr_gen (cm uf rd wd : Z) : Z :=",
+                      "  let %s := %s in" % (t, ex(a.value, env)),
+                      "  let %s := while_t (Z.to_nat (%s / uf + 2)) (fun %s => %s) (fun %s => %s + %s) %s in" % (t, ex(q.left, env), t, cond, t, t, ex(w.body[0].value, names), t),
+                      "  %s." % ex(r.value.args[0], names),
+                      "Lemma mxrr_gen_is_shape : mxrr_gen = mxrr_shape.", "Proof. reflexivity. Qed.",
+                      "Lemma mxrr_gen_is_model : forall cm uf rd wd, 0 <= cm -> mxrr_gen cm uf rd wd = mxrr cm uf rd wd.",
+                      "Proof. rewrite mxrr_gen_is_shape. exact mxrr_shape_is_model. Qed.", ""]) + "\n"
+
+
+GENERATORS["MxrrGen"] = gen_mxrr
+
 # ---------------------------------------------------------------------------------------------------------------------------
 # hrevolve.py: RevolveCheckpointSchedule._iterator (the converter of the four Revolve-family classes) -> coq/Model/GenLang4.v
 ZL4 = {"i": "Li", "n_0": "Ln_0", "n_1": "Ln_1", "w_n0": "Lw_n0", "d_n0": "Ld_n0"}
